@@ -47,8 +47,8 @@ def table_check(case):
 
 
 class RealModel(Model):
-    def __init__(self, seed):
-        super().__init__(orbital_space(1, 1), seed=seed, braket={"V": 1, "f": 1}, diag=("f",),
+    def __init__(self, seed, n_occ=1, n_virt=1):
+        super().__init__(orbital_space(n_occ, n_virt), seed=seed, braket={"V": 1, "f": 1}, diag=("f",),
                          alias=lambda nm: nm.replace("cc", ""))
 
     def eps(self, o):
@@ -103,6 +103,36 @@ def herm_check(case):
     return True, ""
 
 
+def shift_cases(tier, seed):
+    base = [("pp", "ph,pphh", "ia,jkbc", 1), ("ip", "h,phh", "i,jka", 2), ("dip", "hh,phhh", "ij,klma", 2)]
+    if tier == "thorough":
+        base += [("dea", "pp,ppph", "ab,icde", 2), ("pp", "ph,pphh", "ia,jkbc", 2), ("ea", "p,pph", "a,ibc", 2)]
+    for v, b, i, n in base:
+        yield {"variant": v, "block": b, "indices": i, "order": n}
+
+
+def shift_check(case):
+    """states of different excitation classes are orthogonal: a coupling block
+    does not depend on whether the ground state energy is subtracted"""
+    m = sm(case["variant"])
+    n = case["order"]
+    A = Expr(m.isr_matrix_block(n, case["block"], case["indices"], subtract_gs=True), real=True).sympy
+    B = Expr(m.isr_matrix_block(n, case["block"], case["indices"], subtract_gs=False), real=True).sympy
+    need_o = max(sp.count("h") for sp in case["block"].split(","))
+    need_v = max(sp.count("p") for sp in case["block"].split(","))
+    model = RealModel(5, 2 if need_o > 2 else 1, 2 if need_v > 2 else 1)
+    i1, i2 = case["indices"].split(",")
+    targets = get_symbols(i1) + get_symbols(i2)
+    import random
+    for asg in all_assignments(targets, model.orbs, limit=400, rng=random.Random(1)):
+        va, vb = evaluate(A, asg, model), evaluate(B, asg, model)
+        if va != vb:
+            return False, (f"M^({n})[{case['block']}]_{case['indices']} = {va} with and {vb} without "
+                           f"subtraction of the ground state energy at {dict((str(k), v) for k, v in asg.items())}: "
+                           "the intermediate states of the two classes are not orthogonal")
+    return True, ""
+
+
 CHECKS = {
     "block_order.adc_table": {
         "function": "adcgen.secular_matrix:SecularMatrix.block_order", "cases": table_cases,
@@ -111,4 +141,8 @@ CHECKS = {
         "function": "adcgen.secular_matrix:SecularMatrix.isr_matrix_block", "cases": herm_cases,
         "check": herm_check,
         "bound": "pp/ip blocks through second order (ea, doubles first order in thorough), real canonical HF model, 2 occ + 2 virt spin orbitals, all assignments; zeroth/first order ph/ph block vs textbook"},
+    "isr_matrix_block.shift_invariant": {
+        "function": "adcgen.intermediate_states:IntermediateStates.precursor", "cases": shift_cases,
+        "check": shift_check,
+        "bound": "coupling blocks ph/pphh (1), h/phh (2), hh/phhh (2) (thorough: pp/ppph, p/pph, ph/pphh second order): value with and without ground state energy subtraction, <= 400 sampled target assignments"},
 }
